@@ -10,6 +10,8 @@
 (*   class b = the class of the rich BASE value,                           *)
 (*   class c = a third class (preferring the pool's +0 / -0 pair, then the  *)
 (*   EMPTY value if it has a second representative),                       *)
+(*   a' = the EMPTY value (non-nil, empty) when zero is nil and has no      *)
+(*   Equal twin; otherwise                                                 *)
 (*   second representative = a value structurally Equal (Eq of DeriveSem)  *)
 (*   to the first but not the same (preferring a twin such as +0 / -0,     *)
 (*   else another allocation); the first again if the pool has none.       *)
@@ -41,10 +43,16 @@ SlotsOf(cs) ==
       \* a pair the pool itself marks as "the same value, every float leaf the other
       \* zero" (fzp / fzn: structurally Equal, different bits), if it is a third class
       FZ == {j \in N : P[j].tag = "fzn" /\ P[j].kind = "same" /\ P[j].of \in rest}
+      \* a' : an Equal second representative of the zero value; when there is none
+      \* (nil) and the EMPTY value is another class, the EMPTY value: nil and
+      \* empty-but-non-nil are Compare-adjacent and must meet in every list form
+      ar == Rep2In(a1, Ea)
+      a2 == IF ar # a1 THEN ar ELSE IF 2 \in rest THEN 2 ELSE a1
+      rest3 == IF a2 = 2 /\ ar = a1 THEN rest \ {2} ELSE rest
       c1 == IF FZ # {} THEN P[First(FZ)].of
-            ELSE IF 2 \in rest /\ Rep2In(2, E2) # 2 THEN 2 ELSE IF rest # {} THEN First(rest) ELSE b1
+            ELSE IF 2 \in rest3 /\ Rep2In(2, E2) # 2 THEN 2 ELSE IF rest3 # {} THEN First(rest3) ELSE b1
       c2 == IF FZ # {} THEN First(FZ) ELSE Rep2In(c1, E(c1))
-  IN <<a1, Rep2In(a1, Ea), b1, Rep2In(b1, Eb), c1, c2>>
+  IN <<a1, a2, b1, Rep2In(b1, Eb), c1, c2>>
 
 Out == [i \in DOMAIN Cases |->
           [id |-> Cases[i].id,
